@@ -129,6 +129,27 @@ def to_tuple(node):
     return node
 
 
+def drop_absent(node):
+    """The model without its particles of maxOccurs=0 (the root is kept)."""
+    if is_group(node):
+        kids = tuple(drop_absent(c) for c in node[1] if occ(c)[1] != 0)
+        return (node[0], kids) + tuple(node[2:])
+    return node
+
+
+def has_absent(node):
+    return is_group(node) and any(occ(c)[1] == 0 or has_absent(c) for c in node[1])
+
+
+def has_empty_choice(node, nested_only=True, top=True):
+    if not is_group(node):
+        return False
+    n = drop_absent(node) if top else node
+    if n[0] == 'c' and not n[1] and not (top and nested_only):
+        return True
+    return any(has_empty_choice(c, nested_only, False) for c in n[1])
+
+
 def occ_text(mn, mx):
     if (mn, mx) == (1, 1):
         return ''
